@@ -199,6 +199,13 @@ inductive LexErr where
   | unicodeEscape (start stop : Nat)                 -- E211
 deriving Repr, DecidableEq
 
+instance : DecidableEq (Except LexErr Nat) := fun a b =>
+  match a, b with
+  | .ok x, .ok y => if h : x = y then isTrue (by rw [h]) else isFalse (by intro e; cases e; exact h rfl)
+  | .error x, .error y => if h : x = y then isTrue (by rw [h]) else isFalse (by intro e; cases e; exact h rfl)
+  | .ok _, .error _ => isFalse (by intro e; cases e)
+  | .error _, .ok _ => isFalse (by intro e; cases e)
+
 def LexErr.code : LexErr → Nat
   | .stringLiteral _ => 207
   | .literal _ => 208
